@@ -435,6 +435,8 @@ def main(argv=None):
         with open(args.replay) as f:
             rec = json.load(f)
         want = rec.get("process_mode") or ("O" if rec.get("python_optimize") else "")
+        if isinstance(rec.get("witness"), dict) and "hammer" in rec["witness"]:
+            want = "T"
         if want == "O" and not sys.flags.optimize:
             os.execv(sys.executable, [sys.executable, "-O", "-B", "-m", "vlib.runner"] + list(sys.argv[1:] if argv is None else argv))
         if want in ("K", "T") and os.environ.get("VERIF_PROCESS_MODE") != want:
@@ -533,7 +535,8 @@ def main(argv=None):
         if i >= MAX_VIOLATION_LINES:
             lines.append(f"  ... and {len(new) - i} more violating mechanisms (see evidence new_violation_keys)")
             break
-        path = _write_replay(prop, v, tier, seed)
+        # (a replay reports under the file it was given: it does not write the case again)
+        path = args.replay if args.replay else _write_replay(prop, v, tier, seed)
         replays.append(path)
         lines.append(f"VIOLATION property={prop} replay={path}")
         lines.append(f"  mechanism={v['key']} count={v['count']} :: {v['msg'][:400]}")
